@@ -26,7 +26,7 @@ Context {FL : Policy}.
 Section Sound.
 Variable powf : fbits -> fbits -> fbits.
 Variable pre : prelude.
-Hypothesis Hpol : policy_ok powf pre.
+Hypothesis Hpol : policy_ok powf.
 Notation E := (exec powf pre).
 Notation sound_at := (sound_at powf pre).
 Notation sound_line_at := (sound_line_at powf pre).
@@ -68,12 +68,10 @@ Proof.
   - eapply case_assign; eassumption.
   - eapply case_opassign; eassumption.
   - eapply case_call; eassumption.
-  - eapply case_anonfn; try eassumption. eapply (proj1 Hpol _ _ None); try eassumption. exact I.
+  - eapply case_anonfn; try eassumption. eapply (Hpol _ _ None); try eassumption. exact I.
   - eapply case_collect; eassumption.
   - eapply case_reduce; eassumption.
   - eapply case_type_filter; eassumption.
-  - eapply case_sum; try eassumption. exact (proj2 Hpol).
-  - eapply case_product; try eassumption. exact (proj2 Hpol).
   - eapply case_partition; eassumption.
 Qed.
 
